@@ -232,6 +232,10 @@ func NewPool(kt string, code uint, variant string) *Pool {
 	upd("U01~w", "u0", c("u1"), svc("u01w"), late, nil, "legit", "")
 	upd("U01~h", "u0", c("u1"), svc("u01h"), hashMismatch, setDelta(sidetree.DeltaHashMismatch), "legit", "")
 	upd("U01~v", "u0", c("u1"), invalidPatch, nil, setDelta(sidetree.DeltaInvalid), "legit", "")
+	// two defects at once: an unusable delta AND anchored outside the signed window - ignored like any update with an unusable delta
+	// (the out-of-window rule "consumes its commitment" is for updates whose delta is usable)
+	upd("U01~vw", "u0", c("u1"), invalidPatch, late, setDelta(sidetree.DeltaInvalid), "legit", "")
+	upd("U01~hw", "u0", c("u1"), svc("u01hw"), func(s *OpSpec) { hashMismatch(s); late(s) }, setDelta(sidetree.DeltaHashMismatch), "legit", "")
 	upd("U10", "u1", c("u0"), svc("u10"), nil, nil, "legit", "")
 	upd("U20", "u2", c("u0"), svc("u20"), nil, nil, "legit", "")
 	upd("U00", "u0", c("u0"), svc("u00"), nil, nil, "legit", "")
